@@ -8,6 +8,7 @@ package main
 // Primitive level: every reader instantiation runs on a fully arbitrary byte string (counts and lengths included).
 
 import (
+	"encoding/hex"
 	"fmt"
 	"go/types"
 	"os"
@@ -295,6 +296,19 @@ func (c *Ctx) sameTypedLists(mod, tn string) bool {
 }
 
 func c15(c *Ctx, mc MsgCase, aliased bool) {
+	if hx := os.Getenv("VF_DBG_HEX"); hx != "" {
+		// debugging aid: decode a concrete input in the executor and print what it does with it
+		raw, _ := hex.DecodeString(hx)
+		h := c.newHarness(mc, "raw", 0)
+		s := h.s
+		s.heap[h.bufID].B = ConstBytes(string(raw))
+		d := h.freshReceiver(s)
+		c.e().pushCall(s, h.dec, []Value{d, &Ptr{Obj: h.bufID}}, nil)
+		for _, fs := range c.e().Run(s) {
+			fmt.Fprintf(os.Stderr, "DBG path: panic=%q cut=%q nilerr=%v consumed=%v\n", fs.panicd, fs.cut, isNilErr(fs.ret), fs.heap[h.bufID].R)
+		}
+		return
+	}
 	h, w, _, tail := c.rawHarness(mc, 2)
 	e := c.e()
 	s := h.s
